@@ -203,4 +203,50 @@ def dK02b (script : List Op) (tg : Target) : Bool :=
       (indexed script).any (fun (i, op) => i < j && (match op with | .use r hs => r == s && !hs.isEmpty | _ => false))
     | _ => false
 
+/-! ### well-formed scripts (what the generators emit; hypothesis of `C02.compose_admitted_partial`) -/
+
+/-- number of ops before time `t` that create an object of a class -/
+def cnt (isC : Op → Bool) (script : List Op) (t : Nat) : Nat := ((script.take t).filter isC).length
+
+def isNewRouterOp : Op → Bool | .newRouter => true | _ => false
+def isMountOp : Op → Bool | .mount .. => true | _ => false
+
+/-- the path segment a declaring op gives its route -/
+def routeSegOf : Op → Option Nat
+  | .route _ seg _ => some seg
+  | .aroute _ seg _ _ _ => some seg
+  | _ => none
+
+/-- references of a class's nested-creation and `Use` ops point to existing objects -/
+def classRefsOK (C : GClass) (script : List Op) (t : Nat) (op : Op) : Bool :=
+  (match C.sub op with | some (p, _, _) => decide (p < cnt C.isC script t) | none => true) &&
+  (match C.useOp op with | some (g, _) => decide (g < cnt C.isC script t) | none => true)
+
+/-- every object the op at time `t` refers to exists already -/
+def opRefsOK (script : List Op) (t : Nat) (op : Op) : Bool :=
+  classRefsOK groupC script t op && classRefsOK agroupC script t op && classRefsOK avgroupC script t op &&
+  (match op with
+   | .use r _ => decide (r < 1 + cnt isNewRouterOp script t)
+   | .route (.group g) _ _ => decide (g < cnt isGroupCreate script t)
+   | .route (.vrouter v) _ _ => decide (v < cnt isVRouterCreate script t)
+   | .route (.vgroup vg) _ _ => decide (vg < cnt isVGroupCreate script t)
+   | .aroute (.agroup g) _ _ _ _ => decide (g < cnt isAGroupCreate script t)
+   | .aroute (.avgroup vg) _ _ _ _ => decide (vg < cnt isAVGroupCreate script t)
+   | .vgroup v _ _ => decide (v < cnt isVRouterCreate script t)
+   | _ => true)
+
+/-- well-formed: all references resolve at the time they are made, route segments are pairwise distinct -/
+def wfB (script : List Op) : Bool :=
+  ((List.range script.length).all fun t =>
+    match script[t]? with
+    | some op => opRefsOK script t op
+    | none => true) &&
+  ((List.range script.length).all fun i => (List.range script.length).all fun j =>
+    i == j ||
+    (match script[i]?.bind routeSegOf, script[j]?.bind routeSegOf with
+     | some a, some b => a != b
+     | _, _ => true))
+
+def noMountB (script : List Op) : Bool := script.all fun op => !isMountOp op
+
 end Rivaas.Compose
